@@ -26,6 +26,8 @@ MUTANTS = [
     m("c20-ge-linear-gt", "R2", "            return self.log_val >= other.log_val\n        return self.val >= other", "            return self.log_val >= other.log_val\n        return self.val > other"),
     m("c20-ctor-ge", "R2", "            if val > 0:\n                self.log_val = log(val)", "            if val >= 0:\n                self.log_val = log(val)"),
     m("c20-add-mutates-self", "R3", "            return LogRepFloat(log_val=log_sum_exp(self.log_val, other.log_val))\n        return self.val + other", "            self.log_val = log_sum_exp(self.log_val, other.log_val)\n            return self\n        return self.val + other"),
+    m("c20-rtruediv-inverted", "R2", "    def __rtruediv__(self, other: ScalarLike) -> ScalarLike:\n        return other / self.val", "    def __rtruediv__(self, other: ScalarLike) -> ScalarLike:\n        return self.val / other"),
+    m("c20-rsub-sign", "R2", "        return (-self).__radd__(other)", "        return self.__sub__(other)"),
     m("c20-twin-threshold", None, "    if val > -LOG_2:\n", "    if val > -0.6931471805599453:\n", twin=True),
     m("c20-twin-lse-sym", None, "            return LogRepFloat(log_val=log_sum_exp(self.log_val, other.log_val))", "            return LogRepFloat(log_val=log_sum_exp(other.log_val, self.log_val))", twin=True),
     m("c20-twin-threshold-1", None, "    if val > -LOG_2:\n", "    if val > -1.0:\n", twin=True),
